@@ -120,35 +120,65 @@ Theorem C20_rejected_changes_nothing : forall e st o, snd (step e st o) <> ROk -
 Proof. exact step_rejected_frame. Qed.
 Print Assumptions C20_rejected_changes_nothing.
 
-(* Statistics.  Full statement (kept visible; it is FALSE of the faithful model, see the two refutations below):
-   whenever the hook ran for a task, its signer list is exactly the operators with a stored result for it and the
-   non-signer list is exactly the opt-in snapshot minus the signers. *)
+(* Phase one never accepts an absent or zero-length signature (repaired behaviour; the former refutation
+   C20_statistics_empty_signature_refuted is now the regression Example below), and rejecting it changes nothing. *)
+Theorem C20_empty_signature_rejected : forall e st from fv i pk bls,
+  i_stage i = "1"%string -> sig_bytes (i_sig i) = ""%string ->
+  snd (step e st (OSubmit from fv (Some i) pk bls)) <> ROk /\ fst (step e st (OSubmit from fv (Some i) pk bls)) = st.
+Proof. exact empty_signature_rejected. Qed.
+Print Assumptions C20_empty_signature_rejected.
+
+(* Hence every stored task result carries a non-empty signature, in every state reachable from one where that holds. *)
+Theorem C20_results_always_signed : forall e ops st, st_sorted st -> sigs_ok st -> sigs_ok (run e st ops).
+Proof. exact run_sigs_ok. Qed.
+Print Assumptions C20_results_always_signed.
+
+(* The epoch hook has no panic path left: an epoch end is processed in every state. *)
+Theorem C20_epoch_end_never_panics : forall e st ended au ou, snd (step e st (OEpochEnd ended au ou)) = ROk.
+Proof. exact epoch_end_never_panics. Qed.
+Print Assumptions C20_epoch_end_never_panics.
+
+Example C20_empty_signature_regression :
+  run_results w_env w_st0 w_ops_a = [ROk; ROk; ROk; ROk; ROk; ROk; RErr; ROk; ROk] /\
+  s_res (run w_env w_st0 w_ops_a) = [].
+Proof. exact regression_empty_signature. Qed.
+
+(* Statistics.  Full statement (kept visible): for a group the hook writes, the signer list is exactly the operators
+   with a stored result in the group and the non-signer list is exactly the opt-in snapshot minus the signers.
+   The SIGNER half is now proved (C20_statistics_partial + C20_statistics_signers + C20_results_always_signed);
+   the NON-SIGNER half is still false of the faithful model (refutation below). *)
 Definition C20_statistics_full : Prop :=
-  forall st au ou ms st', stat_group st au ou ms = Some st' ->
+  forall st au ou ms, (forall r, In r ms -> sig_ok r = true) -> stat_group st au ou ms <> st ->
   exists r0 t t', In r0 ms /\
     sget (s_tasks st) (join2 (r_task r0) (dec_str (r_id r0))) = Some t /\
-    sget (s_tasks st') (join2 (t_addr t) (dec_str (t_id t))) = Some t' /\
+    sget (s_tasks (stat_group st au ou ms)) (join2 (t_addr t) (dec_str (t_id t))) = Some t' /\
     (forall o, In o (t_signed t') <-> In o (map r_op ms)) /\
     (forall o, In o (t_nosigned t') <-> In o (t_optin t) /\ ~ In o (t_signed t')).
 
-(* What IS proved, for every group the hook processes: signers = the group's results that carry a signature, in
-   operator order; non-signers = SYMMETRIC difference of snapshot and signers; one power entry per signer; total
-   power = the AVS's USD value; the snapshot itself is untouched. *)
+(* What IS proved, for every group the hook processes: it is either skipped (state unchanged: no signed result, task
+   info or AVS USD value unreadable) or signers = the group's results that carry a signature, in operator order;
+   non-signers = SYMMETRIC difference of snapshot and signers; every power entry belongs to a signer and is >= 0;
+   total power = the AVS's USD value; the snapshot itself is untouched. *)
 Theorem C20_statistics_partial : forall st au ou ms,
-  match stat_group st au ou ms with
-  | None => True
-  | Some st' =>
-      exists r0 t t', In r0 ms /\ has_sig r0 = true /\
-        sget (s_tasks st) (join2 (r_task r0) (dec_str (r_id r0))) = Some t /\
-        sget (s_tasks st') (join2 (t_addr t) (dec_str (t_id t))) = Some t' /\
-        t_signed t' = map r_op (filter has_sig (sort_by r_op ms)) /\
-        t_nosigned t' = difference (t_optin t) (t_signed t') /\
-        t_optin t' = t_optin t /\
-        (exists pows, t_powers t' = Some pows /\ map fst pows = t_signed t') /\
-        assoc au (by_task_addr (s_avs st) (r_task r0)) = Some (t_total t')
-  end.
+  stat_group st au ou ms = st \/
+  exists r0 t t', In r0 ms /\ has_sig r0 = true /\
+    sget (s_tasks st) (join2 (r_task r0) (dec_str (r_id r0))) = Some t /\
+    sget (s_tasks (stat_group st au ou ms)) (join2 (t_addr t) (dec_str (t_id t))) = Some t' /\
+    t_signed t' = map r_op (filter has_sig (sort_by r_op ms)) /\
+    t_nosigned t' = difference (t_optin t) (t_signed t') /\
+    t_optin t' = t_optin t /\
+    (exists pows, t_powers t' = Some pows /\ forall o p, In (o, p) pows -> In o (t_signed t') /\ 0 <= p) /\
+    assoc au (by_task_addr (s_avs st) (r_task r0)) = Some (t_total t').
 Proof. exact stat_group_spec. Qed.
 Print Assumptions C20_statistics_partial.
+
+(* When all results of the group carry a signature (every reachable state, C20_results_always_signed), the signer
+   list above is exactly the operators with a stored, i.e. accepted, result in the group. *)
+Theorem C20_statistics_signers : forall ms : list res_info, (forall r, In r ms -> sig_ok r = true) ->
+  filter has_sig (sort_by r_op ms) = sort_by r_op ms /\
+  forall o, In o (map r_op (filter has_sig (sort_by r_op ms))) <-> In o (map r_op ms).
+Proof. exact signers_all. Qed.
+Print Assumptions C20_statistics_signers.
 
 Theorem C20_nonsigners_partial : forall optin signed x,
   (In x (difference optin signed) <-> (In x signed /\ ~ In x optin) \/ (In x optin /\ ~ In x signed)) /\
@@ -156,14 +186,7 @@ Theorem C20_nonsigners_partial : forall optin signed x,
 Proof. exact nonsigners_spec. Qed.
 Print Assumptions C20_nonsigners_partial.
 
-(* Refutation 1: a phase-one submission whose signature field is present but empty is accepted (every step of the
-   history returns ok) and the hook at the end of the statistical period then panics. *)
-Theorem C20_statistics_empty_signature_refuted : exists e st0 ops,
-  st_sorted st0 /\ reg_inv (s_avs st0) /\ run_results e st0 ops = [ROk; ROk; ROk; ROk; ROk; ROk; ROk; ROk; RPanic].
-Proof. exact refuted_empty_signature. Qed.
-Print Assumptions C20_statistics_empty_signature_refuted.
-
-(* Refutation 2: an operator outside the opt-in snapshot whose result was accepted is listed as signer AND non-signer. *)
+(* Refutation (non-signer half): an operator outside the opt-in snapshot whose result was accepted is listed as signer AND non-signer. *)
 Theorem C20_statistics_signer_not_opted_in_refuted : exists e st0 ops t o,
   st_sorted st0 /\ reg_inv (s_avs st0) /\ forallb (fun r => result_eqb r ROk) (run_results e st0 ops) = true /\
   sget (s_tasks (run e st0 ops)) "0xT/1" = Some t /\ In o (t_signed t) /\ In o (t_nosigned t) /\ ~ In o (t_optin t).
